@@ -181,7 +181,7 @@ func Do(addr string, rq RawReq) *RawResp {
 		d0 = time.Now()
 		c, err = net.DialTimeout("tcp", addr, 10*time.Second)
 	}
-	if IsSim && time.Since(d0) != 0 {
+	if IsSim && Took(time.Since(d0)) {
 		FlagAnomaly("dial took virtual time")
 	}
 	if err != nil {
@@ -231,7 +231,7 @@ func Do(addr string, rq RawReq) *RawResp {
 	}
 	res.BodyLen = len(res.Body)
 	res.BodyHash = hashBytes(res.Body)
-	if rq.Instant && IsSim && time.Since(start) != 0 {
+	if rq.Instant && IsSim && Took(time.Since(start)) {
 		FlagAnomaly(fmt.Sprintf("instant exchange %s %s took %v", rq.Method, trunc40(rq.Target), time.Since(start))) // the script contains no wait
 	}
 	return res
